@@ -10,6 +10,7 @@ KD = "osaca/semantics/kernel_dg.py"
 HW = "osaca/semantics/hw_model.py"
 AS = "osaca/semantics/arch_semantics.py"
 IF = "osaca/parser/instruction_form.py"
+OS = "osaca/osaca.py"
 BP = "osaca/parser/base_parser.py"
 FE = "osaca/frontend.py"
 IS = "osaca/semantics/isa_semantics.py"
@@ -38,6 +39,7 @@ M = [
                                                "                    else:\n                        self.timed_out = True\n                        # terminate running processes\n")]),
     ("C19-7-partial-results-read-after-manager-exit", [(KD, "                            p.join()\n                all_paths = list(all_paths)\n",
                                                         "                            p.join()\n                if not self.timed_out:\n                    all_paths = list(all_paths)\n            if self.timed_out:\n                all_paths = list(all_paths)\n")]),
+    ("C19-8-cli-drops-warning-from-text-report", [(OS, "            lcd_warning=kernel_graph.timed_out,\n            verbose=verbose,\n", "            verbose=verbose,\n")]),
     # ---------------------------------------------------------------- C17
     ("C17-1-in-place-write-and-strict-read-restored", [
         (HW, "        tmpfile = cachefile.with_name(\"{}.{}.tmp\".format(cachefile.name, os.getpid()))\n", "        tmpfile = cachefile\n"),
